@@ -315,11 +315,13 @@ def random_pair(ctx, case_seed):
         return
     p2 = clone(prog)
     renamed = {}
+    short_names = ['input', 'in', 'put', 'inp', 't', 'np', 'args', 'kwargs', 'py', 'tuple']     # new names that occur in the key format's own text
+    rng.shuffle(short_names)
     for d in p2['inputs']:
         r = rng.random()
         if r < 0.4 and d.get('resolver') is None:
             renamed[d['name']] = d['alias']
-            d['alias'] = d['alias'] + '.v2'
+            d['alias'] = d['alias'] + '.v2' if rng.random() < 0.7 or not short_names else short_names.pop()
             fr = rng.random()
             if fr < 0.3:
                 d['fallback'] = [renamed[d['name']]]
